@@ -303,7 +303,26 @@ class Analysis:
                 k = ("iv", p["name"])
                 init[k] = iv
                 self._keyinfo_path(k, None, p["name"])
+        self.caps = {}
         self.IN = flow.forward(f, init, self.xfer_elem, self.xfer_edge, self.join, self.widen)
+        # second phase: counters of loops with a bounded trip count are capped
+        # (loops.caps) instead of being widened to their type maximum
+        from . import loops
+        if loops.natural_loops(f):
+            try:
+                caps = loops.caps(self)
+            except RecursionError:
+                caps = {}
+            # later loops depend on the counters of earlier ones: iterate
+            for _ in range(4):
+                if not caps or caps == self.caps:
+                    break
+                self.caps = caps
+                self.IN = flow.forward(f, init, self.xfer_elem, self.xfer_edge, self.join, self.widen)
+                try:
+                    caps = loops.caps(self)
+                except RecursionError:
+                    break
         return self
 
     def state_before(self, eid):
@@ -312,6 +331,25 @@ class Analysis:
         if pos is None:
             return None
         return flow.replay_block(self.f, self.IN, pos[0], self.xfer_elem, upto=eid)
+
+    def state_before_expr(self, eid):
+        """State before the first CFG element that belongs to the expression
+        tree of `eid` (its operands are evaluated - and their side effects
+        applied - before the node itself appears as an element): the state in
+        which eval (eid) computes the value the program computes."""
+        f = self.f
+        pos = flow.elem_pos(f)
+        p = pos.get(eid)
+        if p is None:
+            return None
+        first = eid
+        best = p[1]
+        for n in ex.walk(f, eid):
+            q = pos.get(n)
+            if q is not None and q[0] == p[0] and q[1] < best:
+                best = q[1]
+                first = n
+        return flow.replay_block(f, self.IN, p[0], self.xfer_elem, upto=first)
 
     def state_at_end(self, bid):
         return flow.replay_block(self.f, self.IN, bid, self.xfer_elem)
@@ -326,13 +364,13 @@ class Analysis:
             w = b.get(k)
             if w is None:
                 continue
-            if k[0] == "iv":
+            if k[0] in ("iv", "old"):
                 out[k] = hull(v, w)
             else:
                 out[k] = True
         return out
 
-    def widen(self, old, new):
+    def widen(self, old, new, bid=None):
         out = {}
         for k, v in new.items():
             if k[0] != "iv":
@@ -351,6 +389,9 @@ class Analysis:
                     lo = tr[0]
                 if hi is None:
                     hi = tr[1]
+            cap = self.caps.get((bid, k))
+            if cap is not None and (hi is None or hi > cap):
+                hi = cap       # a proven invariant of this loop head (loops.caps)
             if (lo, hi) != (None, None):
                 out[k] = (lo, hi)
         return out
@@ -610,7 +651,13 @@ class Analysis:
         if k == "un" and e["op"] in ("++", "--"):
             a = self.eval(st, e["c"][0])
             nv = wrap(add(a, (1, 1) if e["op"] == "++" else (-1, -1)), e.get("it"), arith=True)
-            return self._store(st, e["c"][0], nv, e)
+            st = self._store(st, e["c"][0], nv, e)
+            if e.get("post") and a != (None, None):
+                # kept until the end of the block so that a branch on `x-- > 0`
+                # can refine the value x had before the side effect
+                st = dict(st)
+                st[("old", i)] = a
+            return st
         if k == "decl":
             for v in e.get("vars", []):
                 st = self.kill_local(st, v["name"])
@@ -691,6 +738,12 @@ class Analysis:
         return st if out is None else out
 
     def xfer_edge(self, st, bid, lab, succ):
+        r = self._xfer_edge(st, bid, lab, succ)
+        if r is not None and any(k[0] == "old" for k in r):
+            r = {k: v for k, v in r.items() if k[0] != "old"}
+        return r
+
+    def _xfer_edge(self, st, bid, lab, succ):
         f = self.f
         t = f.blocks[bid].term
         if lab is None or not t or "cond" not in t:
@@ -791,6 +844,8 @@ class Analysis:
         if k == "bin" and e["op"] == ",":
             return self.assume(st, e["c"][1], truth, record)
         # plain value: nonzero / zero
+        if k == "un" and e["op"] in ("++", "--") and e.get("post") and ("old", j) in st:
+            return self._assume_cmp(st, "!=" if truth else "==", j, None)
         v = self.eval(st, j)
         if truth:
             if v == (0, 0):
@@ -865,6 +920,26 @@ class Analysis:
 
     def _assume_cmp(self, st, op, a, b):
         f = self.f
+        # `x-- > c` / `x++ < c`: the comparison is about the value before the
+        # side effect, which xfer_elem saved under ("old", node)
+        for side, other, sop in ((a, b, op), (b, a, {"<": ">", ">": "<", "<=": ">=", ">=": "<=", "==": "==", "!=": "!="}[op])):
+            if side is None:
+                continue
+            js = ex.skip(f, side)
+            es = f.exprs[js]
+            if es["k"] == "un" and es["op"] in ("++", "--") and es.get("post") and ("old", js) in st:
+                oldv = st[("old", js)]
+                vo = self.eval(st, other) if other is not None else (0, 0)
+                no, _ = _refine(sop, oldv, vo)
+                if is_empty(no):
+                    return None
+                key = self.track_key(es["c"][0])
+                if key is None:
+                    return st
+                nv = wrap(add(no, (1, 1) if es["op"] == "++" else (-1, -1)), es.get("it"), arith=True)
+                out = dict(st)
+                out[key] = nv
+                return out
         # (x | y) < 0 false  => x >= 0 and y >= 0 ; handled before generic
         ja = ex.skip(f, a)
         ea = f.exprs[ja]
